@@ -336,6 +336,30 @@ X_Project(e) ==
              /\ Len(e.r.devx) = e.a.n /\ AllLeq(e.r.devx, 1000) /\ AllLeq(e.r.devy, 1000)   \* spherical Mercator on R = 6378137 within 1e-6 m
              /\ Len(e.r.dlon) = e.a.n /\ AllLeq(e.r.dlon, 20) /\ AllLeq(e.r.dlat, 20))      \* back within 2e-10 degree
 
+\* ---- the rest of the exported surface ------------------------------------------
+X_CheckZoom(e) == Ok(e) /\ CheckZoomOk(e.r[1], e.a.z)
+\* "<code>,<fixed message>[,<detail>]"; equal arguments give equal (comparable) error values
+X_ErrorValue(e) == /\ Ok(e) /\ e.r.first = e.a.code
+                   /\ e.r.fields >= (IF e.a.detail = "" THEN 2 ELSE 3)
+                   /\ e.r.last = e.a.detail
+                   /\ (e.a.code = "InputValueError" => e.r.same)
+\* plain data objects return what was stored, field by field
+X_Objects(e) == LET v == e.a.v IN
+   /\ Ok(e)
+   /\ e.r.qk = <<v[1], v[2], v[3], v[4], v[5], v[6]>>
+   /\ e.r.tile = <<v[1] % 36, v[2], v[3], v[4] % 36, v[5]>>
+   /\ e.r.g1 = <<v[1], v[2], v[3], v[4], v[5], v[6]>>
+   /\ e.r.g2 = <<v[1], v[2], v[3], v[4], v[5], v[6]>>
+   /\ e.r.ext = <<v[1], v[2], v[3], v[4], v[5]>>
+   /\ e.r.alt = v[6]
+X_Point3(e) ==
+   /\ Ok(e)
+   /\ MaxPointOk(e.r.max, e.r.errmax, e.a.pts, e.a.dir) /\ MinPointOk(e.r.min, e.r.errmin, e.a.pts, e.a.dir)
+   /\ UniqueAppendOk(e.r.appended, e.a.pts, e.a.add, e.a.eps)
+   /\ (e.a.pts # <<>> => e.r.d2 = Dist2(e.a.pts[1], e.a.add) /\ e.r.close = Close3(e.a.pts[1], e.a.add, e.a.eps))
+   /\ e.r.almost = (Abs(e.a.dir[1] - e.a.add[1]) <= e.a.eps)
+X_Angles(e) == Ok(e) /\ e.r.raddev <= 4 /\ e.r.backdev <= 4
+
 \* ---- C19 ------------------------------------------------------------------
 \* r = <<result of the call run alone, result of the same call run concurrently>> (sorted lists)
 X_Conc(e) == Ok(e) /\ e.r[1] = e.r[2]
@@ -407,6 +431,11 @@ Explains(e) ==
       [] e.op = "Quat"                 -> X_Quat(e)
       [] e.op = "Project"              -> X_Project(e)
       [] e.op = "Conc"                 -> X_Conc(e)
+      [] e.op = "CheckZoom"            -> X_CheckZoom(e)
+      [] e.op = "ErrorValue"           -> X_ErrorValue(e)
+      [] e.op = "Objects"              -> X_Objects(e)
+      [] e.op = "Point3"               -> X_Point3(e)
+      [] e.op = "Angles"               -> X_Angles(e)
       [] e.op = "Law"                  -> X_Law(e)
       [] OTHER -> FALSE
 
@@ -471,6 +500,7 @@ Expected(e) ==
     [] e.op \in {"SetOps", "MaxMin", "Line3", "Quat"} -> "helper law"
     [] e.op = "Project"              -> "Mercator within 1e-6 m, round trip within 2e-10 deg, altitude and list structure kept; unknown code = error"
     [] e.op = "Conc"                 -> "the result of the call executed alone"
+    [] e.op \in {"CheckZoom", "ErrorValue", "Objects", "Point3", "Angles"} -> "see X_" \o e.op
     [] e.op \in MachineOps          -> "next working set (see MachineNext); previous state is the previous line's ws"
     [] e.op = "Law"                  -> "both sides of the law must be equal"
     [] OTHER -> "no-spec-operator"
